@@ -1350,6 +1350,16 @@ func main() {
 	}
 	if f.In != "" {
 		for _, in := range hx.ReadInputs(f.In) {
+			if in.Kind == "blocks" {
+				var d blocksD
+				if err := json.Unmarshal(in.Desc, &d); err != nil {
+					panic(err)
+				}
+				o.Begin("blocks", d)
+				c, cnt := runBlocks(d, "replay")
+				emit(o, c, cnt)
+				continue
+			}
 			var d histD
 			if err := json.Unmarshal(in.Desc, &d); err != nil {
 				panic(err)
@@ -1361,6 +1371,19 @@ func main() {
 		return
 	}
 	runAll(o, designed(), "designed", 4)
+	// layer B: real TSM files with chosen block boundaries read through the real KeyCursor
+	for _, d := range designedBlocks() {
+		o.Begin("blocks", d)
+		c, cnt := runBlocks(d, "designed")
+		emit(o, c, cnt)
+	}
+	rb := hx.NewRand(f.Seed ^ 0xb10c5)
+	for i := 0; i < (f.N+1)/2; i++ {
+		d := genBlocks(rb.Split(), i%4)
+		o.Begin("blocks", d)
+		c, cnt := runBlocks(d, "gen")
+		emit(o, c, cnt)
+	}
 	r := hx.NewRand(f.Seed)
 	var hs []histD
 	for i := 0; i < f.N; i++ {
